@@ -1440,6 +1440,12 @@ class ServiceClass:
                     )
                     return
 
+                if not isinstance(result, (tuple, list)) or len(result) != 2:
+                    # Results in an 'invalid status' failure response rather
+                    #   than an exception that aborts the association
+                    LOGGER.error("The handler must yield (status, dataset) results")
+                    result = (None, None)
+
                 yield (result, None)
         except Exception:
             yield (None, sys.exc_info())
